@@ -1,4 +1,4 @@
-import KoordVerif.Proofs.C03Base
+import KoordVerif.Proofs.C03Ext
 import KoordVerif.Props.C02
 /-
 C03 — property theorems (DESIGN.md §4 C03) over the model `Model/C03.lean`.
@@ -438,10 +438,6 @@ theorem setRuntime_inv (cp : Bool) (s : State) (n : Nat) (r : RL) (hI : Inv cp s
   · intro g hg hc d hd m hm
     by_cases h : g.name = n <;> simp only [h, if_true, if_false] at hm ⊢ <;> exact hI.npLeMin g hg hc d hd m hm
 
-/-- "max (min) is not lowered": every dimension declared afterwards was declared before, with no
-    greater value. -/
-def NotLowered (old new : RL) : Prop := ∀ d m', new d = some m' → ∃ m, old d = some m ∧ m ≤ m'
-
 theorem quotaMaxMin_inv (cp : Bool) (s : State) (n : Nat) (mx mn : RL) (hn : n ≠ rootName)
     (hnl : ∀ q, findQ s.quotas n = some q → NotLowered q.max mx ∧ NotLowered q.min mn)
     (hI : Inv cp s) : Inv cp (quotaMaxMin s n mx mn) := by
@@ -505,9 +501,11 @@ theorem quotaAdd_inv (cp : Bool) (s : State) (n parent : Nat) (ip l : Bool) (mx 
     · exact hI.npLeMin g h (hsub _ _ hc) d hd m hm
     · rw [List.mem_singleton.mp h] at hm ⊢; exact hmn d m hm
 
-/-- which `UpdateQuota` events on a known group the closed-loop theorems cover (first disjunct: meta unchanged). -/
-def MetaOK (_cp : Bool) (_s : State) (q : Quota) (parent : Nat) (ip l : Bool) (_mx _mn : RL) : Prop :=
-  q.parent = parent ∧ q.isParent = ip ∧ q.lent = l
+/-- which `UpdateQuota` events on a known group the closed-loop theorems cover: meta unchanged (max/min only), or
+    an allow-lent / is-parent flip (tree reset) of an accounting-consistent state (C01; `TreeConsistent` is tested by
+    the harness before every generated reset). -/
+def MetaOK (_cp : Bool) (s : State) (q : Quota) (parent : Nat) (ip l : Bool) (mx mn : RL) : Prop :=
+  q.parent = parent ∧ ((q.isParent = ip ∧ q.lent = l) ∨ TreeConsistent (quotaMeta s q.name ip l mx mn))
 
 theorem quotaSet_inv (cp : Bool) (s : State) (n parent : Nat) (ip l : Bool) (mx mn : RL) (hn : n ≠ rootName)
     (hmx : ∀ d v, mx d = some v → 0 ≤ v) (hmn : ∀ d v, mn d = some v → 0 ≤ v)
@@ -519,9 +517,17 @@ theorem quotaSet_inv (cp : Bool) (s : State) (n parent : Nat) (ip l : Bool) (mx 
   | some q0 =>
     simp only []
     have h0 := hnl q0 hq
-    have hm : q0.parent = parent ∧ q0.isParent = ip ∧ q0.lent = l := h0.2.2
-    rw [if_pos hm]
-    exact quotaMaxMin_inv cp s n mx mn hn (fun q hq' => ⟨(hnl q hq').1, (hnl q hq').2.1⟩) hI
+    have hnl' : ∀ q, findQ s.quotas n = some q → NotLowered q.max mx ∧ NotLowered q.min mn :=
+      fun q hq' => ⟨(hnl q hq').1, (hnl q hq').2.1⟩
+    obtain ⟨hpar, hrest⟩ := h0.2.2
+    by_cases hm : q0.parent = parent ∧ q0.isParent = ip ∧ q0.lent = l
+    · rw [if_pos hm]
+      exact quotaMaxMin_inv cp s n mx mn hn hnl' hI
+    · rw [if_neg hm, if_neg (by simpa using hpar)]
+      rcases hrest with h | hT
+      · exact absurd ⟨hpar, h⟩ hm
+      · rw [(findQ_some hq).2] at hT
+        exact resetAll_inv cp _ hT (quotaMeta_inv cp s n ip l mx mn hn hnl' hI)
 
 /-- history events: a scheduling cycle (PreFilter, then Reserve iff admitted) or any other event. -/
 inductive Ev where
@@ -656,5 +662,496 @@ example : (exFinal.quotas.map fun g => (g.name, g.used 0, g.used 1)) = [(0, 3, 1
 example : (exFinal.pods.map fun p => (p.id, p.assigned)) = [(1, true), (2, false)] := by decide
 
 end Examples
+
+/-! ### 5. the interleaved closed loop -/
+
+/-- "the admitted pod still fits": exactly what `Reserve` needs to keep the invariant. -/
+def Fits (cp : Bool) (s : State) (p : Pod) (q : Quota) : Prop :=
+  (∀ g ∈ s.quotas, g.name ∈ pathNames s p.quota → (cp = true ∨ IsLeafL s.quotas g.name) →
+      ∀ d, d < s.dims → ∀ m, g.max d = some m → g.used d + mreq q p d ≤ m) ∧
+  (∀ g ∈ s.quotas, g.name ∈ pathNames s p.quota → IsLeafL s.quotas g.name →
+      ∀ d, d < s.dims → ∀ m, g.min d = some m → g.npUsed d + (if p.np then mreq q p d else 0) ≤ m)
+
+/-- an admitting PreFilter establishes `Fits` (whatever the pod's cache flags are). -/
+theorem admitted_fits (cfg : Cfg) (s : State) (p : Pod) (hI : Inv cfg.cp s) (hrt : RuntimeOK s cfg p)
+    (hadm : attempt s cfg p = .success) :
+    ∃ q, findQ s.quotas p.quota = some q ∧ Fits cfg.cp s p q := by
+  rcases (admit_iff s cfg p).mp hadm with ⟨q, hq, hL, hN, hrec⟩
+  refine ⟨q, hq, ?_, ?_⟩
+  all_goals
+    have leafIsQ : ∀ g ∈ s.quotas, g ∈ chain s.quotas (fuelOf s) p.quota → IsLeafL s.quotas g.name → g = q := by
+      intro g hg hgc hleaf
+      have := chain_leaf g.name hleaf _ _ g hgc rfl
+      have h1 := findQ_of_mem hI.nodup hg
+      rw [← this, hq] at h1
+      cases h1; rfl
+    have hchain : chain s.quotas (fuelOf s) p.quota =
+        q :: (if p.quota = rootName then [] else chain s.quotas s.quotas.length q.parent) := by
+      unfold fuelOf; rw [chain]; simp only [hq]
+  · intro g hg hgn hcl d hd m hm
+    have hgc := mem_chain_of_name_mem s hI.nodup g hg _ hgn
+    by_cases hgq : g = q
+    · subst hgq
+      rcases limit_le_max cfg g (fun h => hrt h g hgc) d m hm with ⟨l, hl, hlm⟩
+      have := hL d hd l hl
+      omega
+    · rcases hcl with hcp | hleaf
+      · have hgc' : g ∈ chain s.quotas (fuelOf s) q.parent := by
+          rw [hchain] at hgc
+          rcases List.mem_cons.mp hgc with h | h
+          · exact absurd h hgq
+          · by_cases hr : p.quota = rootName
+            · simp [hr] at h
+            · simp only [hr, if_false] at h
+              exact chain_mono _ _ _ h
+        have hne : g.name ≠ rootName := by
+          intro e
+          have := hI.rootMax g hg e d
+          rw [this] at hm; cases hm
+        have hA := checkRec_success_chain _ _ _ _ _ _ _ (hrec hcp) g hgc' hne
+        rcases limit_le_max cfg g (fun h => hrt h g hgc) d m hm with ⟨l, hl, hlm⟩
+        have h1 := hA d hd l hl
+        unfold ancNewUsed at h1
+        cases hk : mkey q p d with
+        | true => simp only [hk, if_true] at h1; omega
+        | false =>
+          have h0 := mreq_zero_of_not_mkey q p d hk
+          have := hI.usedLeMax g hg (Or.inl hcp) d hd m hm
+          omega
+      · exact absurd (leafIsQ g hg hgc hleaf) hgq
+  · intro g hg hgn hleaf d hd m hm
+    have hgc := mem_chain_of_name_mem s hI.nodup g hg _ hgn
+    have hgq := leafIsQ g hg hgc hleaf
+    subst hgq
+    cases hnp : p.np with
+    | false =>
+      simp only [Bool.false_eq_true, if_false]
+      have := hI.npLeMin g hg hleaf d hd m hm
+      omega
+    | true =>
+      simp only [if_true]
+      have := hN hnp d hd m hm
+      omega
+
+/-- `Reserve` of a pod that (still) fits keeps the invariant — no matter what happened since its PreFilter. -/
+theorem reserve_fits_inv (cp : Bool) (s : State) (id : Nat) (p : Pod) (q : Quota) (hp : findP s.pods id = some p)
+    (hq : findQ s.quotas p.quota = some q) (hI : Inv cp s) (hF : Fits cp s p q) : Inv cp (reserve s id) := by
+  unfold reserve
+  simp only [hp, hq]
+  by_cases hc : (!p.inCache || p.assigned) = true
+  · simp only [hc, if_true]; exact hI
+  · simp only [hc]
+    apply inv_applyDelta
+    · exact setPod_req _ _ _ (fun _ => rfl) hI.reqNonneg
+    · exact hF.1
+    · exact hF.2
+    · exact hI
+
+/-! #### `Fits` survives the informer events -/
+
+/-- the groups are rewritten one by one (names, parents kept; used / npUsed not increased; max / min not lowered):
+    a pod that fitted still fits. -/
+theorem fits_map (cp : Bool) (s : State) (f : Quota → Quota) (pods' : List Pod) (p : Pod) (q : Quota)
+    (hname : ∀ q, (f q).name = q.name) (hpar : ∀ q, (f q).parent = q.parent)
+    (hused : ∀ g ∈ s.quotas, ∀ d, (f g).used d ≤ g.used d ∧ (f g).npUsed d ≤ g.npUsed d)
+    (hmax : ∀ g ∈ s.quotas, NotLowered g.max (f g).max ∧ NotLowered g.min (f g).min)
+    (hreq : ∀ d, 0 ≤ val p.req d) (hq : q ∈ s.quotas)
+    (hF : Fits cp s p q) : Fits cp { s with quotas := s.quotas.map f, pods := pods' } p (f q) := by
+  have hmreq : ∀ d, mreq (f q) p d ≤ mreq q p d := by
+    intro d
+    unfold mreq
+    cases h' : (f q).max d with
+    | none =>
+      simp only [Option.isSome_none, Bool.false_eq_true, if_false]
+      split
+      · exact hreq d
+      · exact Int.le_refl _
+    | some m' =>
+      rcases (hmax q hq).1 d m' h' with ⟨m, hm, _⟩
+      simp [hm]
+  have hmreq0 : ∀ d, 0 ≤ mreq (f q) p d := mreq_nonneg (f q) p hreq
+  refine ⟨?_, ?_⟩
+  · intro g' hg' hgn hcl d hd m' hm'
+    rcases List.mem_map.mp hg' with ⟨g, hg, rfl⟩
+    rw [pathNames_map s f pods' hname hpar, hname] at hgn
+    have hcl' : cp = true ∨ IsLeafL s.quotas g.name := by
+      rcases hcl with h | h
+      · exact Or.inl h
+      · right
+        have := (isLeafL_map s.quotas f hname hpar (f g).name).mp h
+        rw [hname] at this; exact this
+    rcases (hmax g hg).1 d m' hm' with ⟨m, hm, hle⟩
+    have h1 := hF.1 g hg hgn hcl' d hd m hm
+    have h2 := (hused g hg d).1
+    have h3 := hmreq d
+    omega
+  · intro g' hg' hgn hleaf d hd m' hm'
+    rcases List.mem_map.mp hg' with ⟨g, hg, rfl⟩
+    rw [pathNames_map s f pods' hname hpar, hname] at hgn
+    have hleaf' : IsLeafL s.quotas g.name := by
+      have := (isLeafL_map s.quotas f hname hpar (f g).name).mp hleaf
+      rw [hname] at this; exact this
+    rcases (hmax g hg).2 d m' hm' with ⟨m, hm, hle⟩
+    have h1 := hF.2 g hg hgn hleaf' d hd m hm
+    have h2 := (hused g hg d).2
+    have h3 := hmreq d
+    cases hnp : p.np with
+    | false =>
+      simp only [hnp, Bool.false_eq_true, if_false] at h1 ⊢
+      omega
+    | true =>
+      simp only [hnp, if_true] at h1 ⊢
+      omega
+
+theorem map_id_of_forall {qs : List Quota} (f : Quota → Quota) (h : ∀ g ∈ qs, f g = g) : qs.map f = qs := by
+  induction qs with
+  | nil => rfl
+  | cons x xs ih =>
+    simp only [List.map_cons]
+    rw [h x List.mem_cons_self, ih (fun g hg => h g (List.mem_cons_of_mem _ hg))]
+
+/-- `Fits` looks at the pod only through its group, request and preemptibility, and not at the pod table. -/
+theorem fits_congr (cp : Bool) (s : State) (pods' : List Pod) (p p' : Pod) (q : Quota)
+    (h1 : p'.quota = p.quota) (h2 : p'.req = p.req) (h3 : p'.np = p.np) (hF : Fits cp s p q) :
+    Fits cp { s with pods := pods' } p' q := by
+  have hm : ∀ d, mreq q p' d = mreq q p d := by intro d; unfold mreq; rw [h2]
+  refine ⟨?_, ?_⟩
+  · intro g hg hgn hcl d hd m hm'
+    have : pathNames { s with pods := pods' } p'.quota = pathNames s p.quota := by rw [h1]; rfl
+    rw [this] at hgn
+    rw [hm]; exact hF.1 g hg hgn hcl d hd m hm'
+  · intro g hg hgn hcl d hd m hm'
+    have : pathNames { s with pods := pods' } p'.quota = pathNames s p.quota := by rw [h1]; rfl
+    rw [this] at hgn
+    rw [hm, h3]; exact hF.2 g hg hgn hcl d hd m hm'
+
+theorem findP_setPod (ps : List Pod) (id' id : Nat) (f : Pod → Pod) (hid : ∀ x, (f x).id = x.id) :
+    findP (setPod ps id' f) id = (findP ps id).map fun x => if x.id = id' then f x else x := by
+  unfold findP setPod
+  induction ps with
+  | nil => rfl
+  | cons x xs ih =>
+    simp only [List.map_cons, List.find?_cons]
+    have : ((if x.id = id' then f x else x).id == id) = (x.id == id) := by
+      by_cases h : x.id = id' <;> simp [h, hid]
+    rw [this]
+    cases h : (x.id == id)
+    · simpa using ih
+    · simp
+
+theorem findP_append (ps : List Pod) (x : Pod) (id : Nat) (p : Pod) (h : findP ps id = some p) :
+    findP (ps ++ [x]) id = some p := by
+  unfold findP at h ⊢
+  rw [List.find?_append, h]; rfl
+
+/-- giving a request back (clamped at zero) never increases used / npUsed. -/
+theorem release_le (s : State) (names : List Nat) (self : Option Nat) (x y : Nat → Int)
+    (hx : ∀ d, 0 ≤ x d) (hy : ∀ d, 0 ≤ y d) (g : Quota) (hnn : ∀ d, 0 ≤ g.used d ∧ 0 ≤ g.npUsed d) (d : Nat) :
+    ((fun g : Quota => if g.name ∈ names then addUsed g (fun d => -(x d)) (fun d => -(y d)) (self == some g.name) else g) g).used d ≤ g.used d ∧
+    ((fun g : Quota => if g.name ∈ names then addUsed g (fun d => -(x d)) (fun d => -(y d)) (self == some g.name) else g) g).npUsed d ≤ g.npUsed d := by
+  have _ := s
+  by_cases h : g.name ∈ names
+  · simp only [h, if_true, addUsed]
+    have := hx d; have := hy d; have := hnn d
+    unfold clamp0
+    constructor <;> split <;> omega
+  · simp only [h, if_false]; exact ⟨Int.le_refl _, Int.le_refl _⟩
+
+/-- state of the interleaved history: the manager + the pod admitted by the last PreFilter whose Reserve is still
+    to come (ghost). -/
+structure IState where
+  st   : State
+  pend : Option Nat
+
+inductive IEv where
+  | prefilter (id : Nat) (cfg : Cfg)
+  | reserve
+  | ext (op : Op)
+
+/-- quota updates after which an open admission is dropped (the pod goes back to the queue): a group appears, is
+    re-parented, or the tree is reset.  For a re-parented group on the admitted pod's path this is necessary
+    (`interleaved_reparent_counterexample`); the others are not covered by the proof. -/
+def dropsPending (s : State) : Op → Bool
+  | .quotaSet n parent ip l _ _ =>
+    match findQ s.quotas n with
+    | none => true
+    | some q => !(decide (q.parent = parent) && decide (q.isParent = ip) && decide (q.lent = l))
+  | _ => false
+
+def runI (is : IState) : IEv → IState
+  | .prefilter id cfg =>
+    { is with pend := if (step is.st (.attempt id cfg)).2 = some .success then some id else none }
+  | .reserve =>
+    match is.pend with
+    | some id => { st := reserve is.st id, pend := none }
+    | none => is
+  | .ext op => { st := (step is.st op).1, pend := if dropsPending is.st op then none else is.pend }
+
+def IEvOK (cp : Bool) (is : IState) : IEv → Prop
+  | .prefilter id cfg => cfg.cp = cp ∧ ∀ p, findP is.st.pods id = some p → RuntimeOK is.st cfg p
+  | .reserve => True
+  | .ext op => EvOK cp is.st (.ext op)
+
+def IValid (cp : Bool) : IState → List IEv → Prop
+  | _, [] => True
+  | s, e :: es => IEvOK cp s e ∧ IValid cp (runI s e) es
+
+/-- the invariant of the interleaved loop: `Inv`, and the admitted pod (if any) still fits. -/
+def IInv (cp : Bool) (is : IState) : Prop :=
+  Inv cp is.st ∧ ∀ id, is.pend = some id →
+    ∃ p q, findP is.st.pods id = some p ∧ findQ is.st.quotas p.quota = some q ∧ Fits cp is.st p q
+
+theorem findQ_mem_map {qs : List Quota} (f : Quota → Quota) (hname : ∀ q, (f q).name = q.name) {n : Nat} {q : Quota}
+    (h : findQ qs n = some q) : findQ (qs.map f) n = some (f q) := by
+  rw [findQ_map f hname, h]; rfl
+
+/-- one informer event that does not drop the open admission keeps "still fits". -/
+theorem ext_fits (cp : Bool) (s : State) (op : Op) (hI : Inv cp s) (hok : EvOK cp s (.ext op))
+    (hnd : dropsPending s op = false) (id : Nat) (p : Pod) (q : Quota)
+    (hp : findP s.pods id = some p) (hq : findQ s.quotas p.quota = some q) (hF : Fits cp s p q) :
+    ∃ p' q', findP (step s op).1.pods id = some p' ∧ findQ (step s op).1.quotas p'.quota = some q' ∧
+      Fits cp (step s op).1 p' q' := by
+  have hreq := hI.reqNonneg p (findP_mem hp)
+  have hqm := (findQ_some hq).1
+  -- the generic "groups rewritten one by one" case
+  have viaMap : ∀ (f : Quota → Quota) (pods' : List Pod) (p' : Pod),
+      (∀ q, (f q).name = q.name) → (∀ q, (f q).parent = q.parent) →
+      (∀ g ∈ s.quotas, ∀ d, (f g).used d ≤ g.used d ∧ (f g).npUsed d ≤ g.npUsed d) →
+      (∀ g ∈ s.quotas, NotLowered g.max (f g).max ∧ NotLowered g.min (f g).min) →
+      findP pods' id = some p' → p'.quota = p.quota → p'.req = p.req → p'.np = p.np →
+      ∃ p'' q', findP ({ s with quotas := s.quotas.map f, pods := pods' } : State).pods id = some p'' ∧
+        findQ ({ s with quotas := s.quotas.map f, pods := pods' } : State).quotas p''.quota = some q' ∧
+        Fits cp { s with quotas := s.quotas.map f, pods := pods' } p'' q' := by
+    intro f pods' p' hname hpar hused hmax hfp h1 h2 h3
+    refine ⟨p', f q, hfp, ?_, ?_⟩
+    · show findQ (s.quotas.map f) p'.quota = some (f q)
+      rw [h1]; exact findQ_mem_map f hname hq
+    · have := fits_map cp s f pods' p q hname hpar hused hmax hreq hqm hF
+      exact fits_congr cp _ pods' p p' (f q) h1 h2 h3 this
+  -- only the pod table changed
+  have viaPods : ∀ (pods' : List Pod) (p' : Pod), findP pods' id = some p' → p'.quota = p.quota → p'.req = p.req →
+      p'.np = p.np →
+      ∃ p'' q', findP ({ s with pods := pods' } : State).pods id = some p'' ∧
+        findQ ({ s with pods := pods' } : State).quotas p''.quota = some q' ∧ Fits cp { s with pods := pods' } p'' q' := by
+    intro pods' p' hfp h1 h2 h3
+    exact ⟨p', q, hfp, by show findQ s.quotas p'.quota = some q; rw [h1]; exact hq, fits_congr cp s pods' p p' q h1 h2 h3 hF⟩
+  have setPodFind : ∀ (id' : Nat) (f : Pod → Pod), (∀ x, (f x).id = x.id) → (∀ x, (f x).quota = x.quota) →
+      (∀ x, (f x).req = x.req) → (∀ x, (f x).np = x.np) →
+      ∃ p', findP (setPod s.pods id' f) id = some p' ∧ p'.quota = p.quota ∧ p'.req = p.req ∧ p'.np = p.np := by
+    intro id' f h0 h1 h2 h3
+    refine ⟨if p.id = id' then f p else p, ?_, ?_, ?_, ?_⟩
+    · rw [findP_setPod _ _ _ _ h0, hp]; rfl
+    all_goals by_cases h : p.id = id' <;> simp [h, h1, h2, h3]
+  have same : ∃ p' q', findP s.pods id = some p' ∧ findQ s.quotas p'.quota = some q' ∧ Fits cp s p' q' :=
+    ⟨p, q, hp, hq, hF⟩
+  cases op with
+  | quotaSet n parent ip l mx mn =>
+    obtain ⟨h1, h2, h3, h4⟩ := hok
+    simp only [dropsPending] at hnd
+    cases hqn : findQ s.quotas n with
+    | none => simp [hqn] at hnd
+    | some q0 =>
+      have hm : q0.parent = parent ∧ q0.isParent = ip ∧ q0.lent = l := by
+        simp only [hqn, Bool.not_eq_false', Bool.and_eq_true, decide_eq_true_eq] at hnd
+        exact ⟨hnd.1.1, hnd.1.2, hnd.2⟩
+      rw [show (step s (Op.quotaSet n parent ip l mx mn)).1 = quotaSet s n parent ip l mx mn from rfl]
+      unfold quotaSet
+      simp only [hqn, if_pos hm]
+      unfold quotaMaxMin
+      have := viaMap (fun g => if g.name = n then { g with max := mx, min := mn } else g) s.pods p
+        (by intro g; by_cases h : g.name = n <;> simp [h])
+        (by intro g; by_cases h : g.name = n <;> simp [h])
+        (by intro g _ d; by_cases h : g.name = n <;> simp [h])
+        (by
+          intro g hg
+          by_cases h : g.name = n
+          · simp only [h, if_true]
+            have := findQ_of_mem hI.nodup hg
+            rw [h] at this
+            exact ⟨(h4 g this).1, (h4 g this).2.1⟩
+          · simp only [h, if_false]; exact ⟨notLowered_refl _, notLowered_refl _⟩)
+        hp rfl rfl rfl
+      exact this
+  | setRuntime n r =>
+    rw [show (step s (Op.setRuntime n r)).1 = setRuntime s n r from rfl]
+    unfold setRuntime
+    exact viaMap (fun g => if g.name = n then { g with runtime := r } else g) s.pods p
+      (by intro g; by_cases h : g.name = n <;> simp [h])
+      (by intro g; by_cases h : g.name = n <;> simp [h])
+      (by intro g _ d; by_cases h : g.name = n <;> simp [h])
+      (by intro g _; by_cases h : g.name = n <;> simp [h] <;> exact ⟨notLowered_refl _, notLowered_refl _⟩)
+      hp rfl rfl rfl
+  | podDef i qn np req =>
+    rw [show (step s (Op.podDef i qn np req)).1 = podDef s i qn np req from rfl]
+    unfold podDef
+    exact viaPods _ p (findP_append _ _ _ _ hp) rfl rfl rfl
+  | podAdd i =>
+    rw [show (step s (Op.podAdd i)).1 = podAdd s i from rfl]
+    unfold podAdd
+    cases hpi : findP s.pods i with
+    | none => exact same
+    | some pi =>
+      simp only []
+      cases hqi : findQ s.quotas pi.quota with
+      | none => exact same
+      | some qi =>
+        simp only []
+        split
+        · exact same
+        · rcases setPodFind i (fun x => { x with inCache := true, assigned := false }) (fun _ => rfl) (fun _ => rfl)
+            (fun _ => rfl) (fun _ => rfl) with ⟨p', h0, h1, h2, h3⟩
+          exact viaPods _ p' h0 h1 h2 h3
+  | attempt i cfg =>
+    have : (step s (Op.attempt i cfg)).1 = s := by simp only [step]; cases findP s.pods i <;> rfl
+    rw [this]; exact same
+  | reserve i => exact (hok : False).elim
+  | unreserve i =>
+    rw [show (step s (Op.unreserve i)).1 = unreserve s i from rfl]
+    unfold unreserve
+    cases hpi : findP s.pods i with
+    | none => exact same
+    | some pi =>
+      simp only []
+      cases hqi : findQ s.quotas pi.quota with
+      | none => exact same
+      | some qi =>
+        simp only []
+        split
+        · exact same
+        · rcases setPodFind i (fun x => { x with assigned := false }) (fun _ => rfl) (fun _ => rfl)
+            (fun _ => rfl) (fun _ => rfl) with ⟨p', h0, h1, h2, h3⟩
+          have hm0 := mreq_nonneg qi pi (hI.reqNonneg pi (findP_mem hpi))
+          have hrel : (fun d => if pi.np then -(mreq qi pi d) else 0) = fun d => -((fun d => if pi.np then mreq qi pi d else 0) d) := by
+            funext d; split <;> simp
+          unfold applyDelta
+          rw [hrel]
+          exact viaMap _ _ p'
+            (by intro g; by_cases h : g.name ∈ pathNames s pi.quota <;> simp [h, addUsed])
+            (by intro g; by_cases h : g.name ∈ pathNames s pi.quota <;> simp [h, addUsed])
+            (fun g hg d => release_le s _ _ _ _ hm0 (by intro d; split; exact hm0 d; exact Int.le_refl _) g (hI.nonneg g hg) d)
+            (by intro g _; by_cases h : g.name ∈ pathNames s pi.quota <;> simp [h, addUsed] <;> exact ⟨notLowered_refl _, notLowered_refl _⟩)
+            h0 h1 h2 h3
+  | podDelete i =>
+    rw [show (step s (Op.podDelete i)).1 = podDelete s i from rfl]
+    unfold podDelete
+    cases hpi : findP s.pods i with
+    | none => exact same
+    | some pi =>
+      simp only []
+      cases hqi : findQ s.quotas pi.quota with
+      | none => exact same
+      | some qi =>
+        simp only []
+        split
+        · exact same
+        · rcases setPodFind i (fun x => { x with inCache := false, assigned := false }) (fun _ => rfl) (fun _ => rfl)
+            (fun _ => rfl) (fun _ => rfl) with ⟨p', h0, h1, h2, h3⟩
+          cases ha : pi.assigned with
+          | false =>
+            simp only [Bool.false_eq_true, if_false]
+            exact viaPods _ p' h0 h1 h2 h3
+          | true =>
+            simp only [if_true]
+            have hm0 := mreq_nonneg qi pi (hI.reqNonneg pi (findP_mem hpi))
+            have hrel : (fun d => if pi.np then -(mreq qi pi d) else 0) = fun d => -((fun d => if pi.np then mreq qi pi d else 0) d) := by
+              funext d; split <;> simp
+            unfold applyDelta
+            rw [hrel]
+            exact viaMap _ _ p'
+              (by intro g; by_cases h : g.name ∈ pathNames s pi.quota <;> simp [h, addUsed])
+              (by intro g; by_cases h : g.name ∈ pathNames s pi.quota <;> simp [h, addUsed])
+              (fun g hg d => release_le s _ _ _ _ hm0 (by intro d; split; exact hm0 d; exact Int.le_refl _) g (hI.nonneg g hg) d)
+              (by intro g _; by_cases h : g.name ∈ pathNames s pi.quota <;> simp [h, addUsed] <;> exact ⟨notLowered_refl _, notLowered_refl _⟩)
+              h0 h1 h2 h3
+
+theorem runI_inv (cp : Bool) (is : IState) (e : IEv) (hI : IInv cp is) (hok : IEvOK cp is e) : IInv cp (runI is e) := by
+  obtain ⟨hInv, hPend⟩ := hI
+  cases e with
+  | prefilter id cfg =>
+    obtain ⟨hcp, hrt⟩ := hok
+    subst hcp
+    refine ⟨hInv, ?_⟩
+    intro id' hid'
+    simp only [runI, step] at hid'
+    cases hp : findP is.st.pods id with
+    | none => simp [hp] at hid'
+    | some p =>
+      simp only [hp] at hid'
+      by_cases hv : attempt is.st cfg p = .success
+      · simp only [hv, if_true, Option.some.injEq] at hid'
+        subst hid'
+        rcases admitted_fits cfg is.st p hInv (hrt p hp) hv with ⟨q, hq, hF⟩
+        exact ⟨p, q, hp, hq, hF⟩
+      · have : (some (attempt is.st cfg p) = some Verdict.success) = False := by
+          simp [hv]
+        simp [this] at hid'
+  | reserve =>
+    cases hpd : is.pend with
+    | none =>
+      simp only [runI, hpd]
+      exact ⟨hInv, fun id h => by rw [hpd] at h; cases h⟩
+    | some id =>
+      simp only [runI, hpd]
+      rcases hPend id hpd with ⟨p, q, hp, hq, hF⟩
+      exact ⟨reserve_fits_inv cp is.st id p q hp hq hInv hF, fun _ h => by cases h⟩
+  | ext op =>
+    have hInv' : Inv cp (step is.st op).1 := runEv_inv cp is.st (.ext op) hInv hok
+    refine ⟨hInv', ?_⟩
+    intro id hid
+    simp only [runI] at hid
+    cases hd : dropsPending is.st op with
+    | true => simp [hd] at hid
+    | false =>
+      simp only [hd, Bool.false_eq_true, if_false] at hid
+      rcases hPend id hid with ⟨p, q, hp, hq, hF⟩
+      exact ext_fits cp is.st op hInv hok hd id p q hp hq hF
+
+/-- DESIGN §4 C03 T3, interleaved form: informer events (unreserve / delete / add of any pod, max/min raises,
+    runtime refreshes, stale attempts) may fall between the admitting PreFilter and its Reserve. -/
+theorem closed_loop_inv (cp : Bool) : ∀ (evs : List IEv) (is : IState), IInv cp is → IValid cp is evs →
+    IInv cp (evs.foldl runI is) := by
+  intro evs
+  induction evs with
+  | nil => intro s h _; exact h
+  | cons e es ih =>
+    intro s hI hv
+    exact ih _ (runI_inv cp s e hI hv.1) hv.2
+
+theorem used_never_above_max_interleaved (cp : Bool) (D : Nat) (evs : List IEv)
+    (hv : IValid cp ⟨init D, none⟩ evs) :
+    ∀ g ∈ (evs.foldl runI ⟨init D, none⟩).st.quotas,
+      (cp = true ∨ IsLeafL (evs.foldl runI ⟨init D, none⟩).st.quotas g.name) →
+      ∀ d, d < (evs.foldl runI ⟨init D, none⟩).st.dims → ∀ m, g.max d = some m → g.used d ≤ m :=
+  (closed_loop_inv cp evs ⟨init D, none⟩ ⟨init_inv cp D, fun _ h => by cases h⟩ hv).1.usedLeMax
+
+theorem np_used_never_above_min_interleaved (cp : Bool) (D : Nat) (evs : List IEv)
+    (hv : IValid cp ⟨init D, none⟩ evs) :
+    ∀ g ∈ (evs.foldl runI ⟨init D, none⟩).st.quotas, IsLeafL (evs.foldl runI ⟨init D, none⟩).st.quotas g.name →
+      ∀ d, d < (evs.foldl runI ⟨init D, none⟩).st.dims → ∀ m, g.min d = some m → g.npUsed d ≤ m :=
+  (closed_loop_inv cp evs ⟨init D, none⟩ ⟨init_inv cp D, fun _ h => by cases h⟩ hv).1.npLeMin
+
+/-! #### the interleaving that breaks it: re-parenting on the admitted pod's path -/
+
+def cxMax (c : Int) : RL := fun d => if d = 0 then some c else none
+
+/-- root ← 1 (max 10) ← 3 (max 10), root ← 2 (max 4); pod 1 (cpu 6) in group 3; nothing is used. -/
+def cxState : State :=
+  [ Op.quotaSet 1 0 true true (cxMax 10) RL.empty, Op.quotaSet 2 0 true true (cxMax 4) RL.empty,
+    Op.quotaSet 3 1 false true (cxMax 10) RL.empty, Op.podDef 1 3 false (cxMax 6), Op.podAdd 1 ].foldl
+    (fun s op => (step s op).1) (init 1)
+
+/-- group 3 moves below group 2 between the PreFilter and the Reserve of pod 1. -/
+def cxMoved : State := quotaSet cxState 3 2 false true (cxMax 10) RL.empty
+
+/-- PreFilter (parent checking on) admits pod 1: 0 + 6 ≤ 10 on group 3 and on its ancestor 1.  The move of the
+    still empty group 3 below group 2 is harmless by itself (every used stays 0, so it fits everywhere), but the
+    Reserve that follows books 6 on the new ancestor 2 whose max is 4 and which PreFilter never looked at. -/
+theorem interleaved_reparent_counterexample :
+    (step cxState (.attempt 1 ⟨false, true⟩)).2 = some .success ∧
+    (cxMoved.quotas.map fun g => (g.name, g.parent, g.used 0)) = [(0, 0, 0), (1, 0, 0), (2, 0, 0), (3, 2, 0)] ∧
+    ((reserve cxMoved 1).quotas.map fun g => (g.name, g.max 0, g.used 0)) =
+      [(0, none, 6), (1, some 10, 0), (2, some 4, 6), (3, some 10, 6)] := by
+  decide
+
 
 end KoordVerif.C03
